@@ -63,3 +63,11 @@ macro "epv_semi_su_clamp" : tactic =>
                 first
                 | (exfalso; linarith)
                 | ((try epv_semi_su_minmax); first | done | (ring_nf; done) | ring1))))
+
+/-- walk a traced tree: unfold the tree together with its leaves, drop the splits on traced conditions the field
+at hand does not depend on (both branches then carry the same term: `ite_self` — a model traces several fields
+at once and every field's tree carries the conditions of all of them), split on the conditions that remain and
+unfold them in the context -/
+macro "epv_semi_su_split" : tactic =>
+  `(tactic| (simp only [epv_tree, epv_leaf, ite_self]
+             (try split_ifs) <;> (try simp only [epv_cond, not_le, not_lt] at *)))
